@@ -17,7 +17,7 @@ from . import engine
 
 
 class Frame:
-    __slots__ = ('idx', 't', 'src', 'can_id', 'data', 'fd', 'ext', 'remote', 'error', 'lost', 'silenced', 'thread')
+    __slots__ = ('idx', 't', 'src', 'can_id', 'data', 'fd', 'ext', 'remote', 'error', 'lost', 'silenced', 'thread', 'msg')
 
     def __init__(self, idx, t, src, can_id, data, fd=False, ext=True, remote=False, error=False):
         self.idx = idx
@@ -32,6 +32,7 @@ class Frame:
         self.lost = False
         self.silenced = False
         self.thread = None
+        self.msg = None
 
     # decoded identifier fields (plain arithmetic, independent of the repository)
     @property
@@ -85,6 +86,7 @@ class Bus:
         # what the interface writes into can.Message.timestamp: the epoch clock, nothing (0.0, the default of can.Message and of interfaces
         # without time stamping), or seconds since start-up -- the stack must not depend on it
         self.ts_mode = 'epoch'
+        self.shared_msg = False     # every receiving stack gets the same can.Message object for a frame (as with one can.Notifier), not a copy
 
     def timestamp(self):
         if self.ts_mode == 'zero':
@@ -326,9 +328,13 @@ class StackNode:
 
     def handle(self, fr):
         self.rx_frames += 1
-        m = can.Message(is_extended_id=fr.ext, arbitration_id=fr.can_id, data=bytearray(fr.data),
-                        is_fd=fr.fd, is_remote_frame=fr.remote, is_error_frame=fr.error,
-                        timestamp=self.bus.timestamp(), check=False)
+        m = fr.msg if self.bus.shared_msg else None
+        if m is None:
+            m = can.Message(is_extended_id=fr.ext, arbitration_id=fr.can_id, data=bytearray(fr.data),
+                            is_fd=fr.fd, is_remote_frame=fr.remote, is_error_frame=fr.error,
+                            timestamp=self.bus.timestamp(), check=False)
+            if self.bus.shared_msg:
+                fr.msg = m          # python-can's Notifier hands the SAME Message object to every listener
         self.listener.on_message_received(m)
 
     def _check_sleep(self, now, timeout, held=0.0):
